@@ -245,10 +245,23 @@ def check(run):
         plan = world.rand_plan(rng, adocs.keys(), max_segments=3)
         if missing and wi % 4 == 1:
             # a segment without any column for the sortable fields: none of its documents has a value
+            # (the segments of this world are kept apart: no merging commit)
+            ks = sorted(adocs)
+            rng.shuffle(ks)
+            cut = rng.randrange(1, len(ks) - 1)
+            plan = [("commit", ks[:cut], {"merge": False}), ("commit", ks[cut:], {"merge": False})]
             commits = [st for st in plan if st[0] == "commit"]
-            for k in rng.choice(commits)[1]:
+            chosen = rng.choice(commits)[1]
+            for k in chosen:
                 for f in ("num", "tag", "when"):
                     adocs[k]["k"][f] = []
+            # ... and a document without a value in a segment that does have the column
+            others = [k for st in commits for k in st[1] if k not in chosen]
+            if len(others) > 1:
+                for f in ("num", "tag", "when"):
+                    adocs[others[0]]["k"][f] = []
+                if len(others) > 2:
+                    plan.append(("delete", [others[-1]]))
         ix = build(rng, adocs, plan)
         with ix.searcher(weighting=scoring.Frequency()) as s:
             rd = s.reader()
@@ -267,6 +280,18 @@ def check(run):
                 obs = observe(s, q, aq, rng, missing)
                 run.count(len(obs))
                 qs.append({"q": aq, "obs": obs})
+            if missing:
+                # every document, by each column-backed key in both directions (documents without a value, in
+                # segments with and without the column, must tie with one another)
+                from whoosh import sorting, query
+                obs = []
+                for f in ("num", "when", "tag", "numnc"):
+                    for rv in (False, True):
+                        r = s.search(query.Every(), limit=None, sortedby=sorting.FieldFacet(f, reverse=rv))
+                        obs.append({"kind": "sorted", "path": "sortedby=%s reverse-key=%s (every document)" % (f, rv),
+                                    "keys": [[f, rv]], "grev": False, "k": 0, "docs": [int(h.docnum) for h in r]})
+                run.count(len(obs))
+                qs.append({"q": {"op": "every", "f": "", "b4": 4}, "obs": obs})
             cases.append({"idx": idx, "qs": qs})
             meta.append({"plan": plan, "nseg": len(rd.leaf_readers()), "deleted": sum(1 for d in docs if not d["live"]),
                          "missing": missing})
